@@ -691,6 +691,114 @@ def inline_fresh_helpers(repo: Repo, max_inlines: int = 200) -> list[str]:
     return done
 
 
+def _eval_order(n):
+    """sub-expressions of a statement/expression in (an approximation of) evaluation order, innermost first"""
+    if isinstance(n, (ast.Assign, ast.AnnAssign, ast.AugAssign, ast.Return, ast.Expr)):
+        v = getattr(n, "value", None)
+        if v is not None:
+            yield from _eval_order(v)
+        return
+    if isinstance(n, (ast.If, ast.While)):
+        yield from _eval_order(n.test)
+        return
+    if isinstance(n, ast.Call):
+        yield from _eval_order(n.func)
+        for a in n.args:
+            yield from _eval_order(a)
+        for k in n.keywords:
+            yield from _eval_order(k.value)
+        yield n
+        return
+    if isinstance(n, ast.Attribute):
+        yield from _eval_order(n.value)
+        yield n
+        return
+    if isinstance(n, ast.Await):
+        yield from _eval_order(n.value)
+        yield n
+        return
+    if isinstance(n, ast.BinOp):
+        yield from _eval_order(n.left)
+        yield from _eval_order(n.right)
+        yield n
+        return
+    if isinstance(n, ast.UnaryOp):
+        yield from _eval_order(n.operand)
+        yield n
+        return
+    if isinstance(n, ast.Compare):
+        yield from _eval_order(n.left)
+        for c in n.comparators:
+            yield from _eval_order(c)
+        yield n
+        return
+    if isinstance(n, ast.Subscript):
+        yield from _eval_order(n.value)
+        yield from _eval_order(n.slice)
+        yield n
+        return
+    if isinstance(n, (ast.Tuple, ast.List)):
+        for e in n.elts:
+            yield from _eval_order(e)
+        yield n
+        return
+    if isinstance(n, ast.Starred):
+        yield from _eval_order(n.value)
+        return
+    yield n
+
+
+def _inline_single_use_temps(fn) -> bool:
+    """`t = f(x)` immediately followed by a statement whose first evaluation is the call `t(...)`, with t used nowhere else: the
+    temporary is folded back (`f(x)(...)`).  Splitting a chained call through a temporary is a behaviour-preserving edit; evaluation
+    order is unchanged because nothing is evaluated between the two."""
+    uses: dict[str, int] = {}
+    for n in own_walk(fn):
+        if isinstance(n, ast.Name):
+            uses[n.id] = uses.get(n.id, 0) + 1
+    changed = False
+    for par in [fn] + list(own_walk(fn)):
+        for fld in ("body", "orelse", "finalbody"):
+            blk = getattr(par, fld, None)
+            if not isinstance(blk, list) or len(blk) < 2:
+                continue
+            i = 0
+            while i < len(blk) - 1:
+                a, b = blk[i], blk[i + 1]
+                ok = False
+                if isinstance(a, (ast.Assign, ast.AnnAssign)) and getattr(a, "value", None) is not None and isinstance(b, (ast.Assign, ast.AnnAssign, ast.Return, ast.Expr, ast.If)):
+                    tg = a.targets[0] if isinstance(a, ast.Assign) and len(a.targets) == 1 else (a.target if isinstance(a, ast.AnnAssign) else None)
+                    v = a.value
+                    if isinstance(tg, ast.Name) and uses.get(tg.id, 0) == 2 and isinstance(v, ast.Call) \
+                            and not any(isinstance(x, (ast.Await, ast.Yield, ast.YieldFrom, ast.NamedExpr, ast.Lambda)) for x in ast.walk(v)):
+                        first_nontrivial = None
+                        for x in _eval_order(b):
+                            if isinstance(x, ast.Name) and x.id == tg.id and isinstance(x.ctx, ast.Load):
+                                first_nontrivial = x
+                                break
+                            if isinstance(x, (ast.Call, ast.Await, ast.Subscript, ast.BinOp, ast.Compare)):
+                                break
+                        # only the "split chained call" shape: the temporary is the callee of a call in the next statement
+                        hp = getattr(first_nontrivial, "_parent", None) if first_nontrivial is not None else None
+                        if not (isinstance(hp, ast.Call) and hp.func is first_nontrivial):
+                            first_nontrivial = None
+                        if first_nontrivial is not None:
+                            holder = getattr(first_nontrivial, "_parent", None)
+                            for f_, val in ast.iter_fields(holder) if holder is not None else []:
+                                if val is first_nontrivial:
+                                    setattr(holder, f_, v)
+                                    ok = True
+                                elif isinstance(val, list) and any(y is first_nontrivial for y in val):
+                                    val[[y is first_nontrivial for y in val].index(True)] = v
+                                    ok = True
+                if ok:
+                    del blk[i]
+                    changed = True
+                    continue
+                i += 1
+    return changed
+
+
 def _expand_conditional_expressions(fn) -> bool:
     """`x = A if c else B` / `return A if c else B` are rewritten in place to the if/else statement form, so that the two spellings are
     one construct for the CFG (a test node with two branches) and for the rules"""
@@ -734,6 +842,11 @@ def resolve_aliases(repo: Repo):
             for par in ast.walk(f.node):
                 for chd in ast.iter_child_nodes(par):
                     chd._parent = par
+    for f in repo.all_funcs:
+        if _inline_single_use_temps(f.node):
+            for par in ast.walk(f.node):
+                for ch in ast.iter_child_nodes(par):
+                    ch._parent = par
     for f in repo.all_funcs:
         if _inline_return_temps(f.node):
             for par in ast.walk(f.node):
